@@ -16,3 +16,4 @@ import MicroHttp.Props.Tables
 #print axioms MicroHttp.C10.reachable
 #print axioms MicroHttp.Tables.is_done_pred
 #print axioms MicroHttp.Tables.client_enqueue
+#print axioms MicroHttp.Tables.no_shared_state
